@@ -151,6 +151,14 @@ def check_order_of_phases(repo, rep):
     S.check_generation(repo, rep, "C01-R5b")
 
 
+def check_clock_before_hooks(repo, rep):
+    """a hook that runs with a stale clock is an observation stamped t of candles that end after t: in the fast matcher the clock
+    must be advanced to the end of the fill minute before the order is executed (the normal simulator advances it before it
+    feeds the minute at all, decided by the sessions of R5)"""
+    from props.c12 import check_fast_time
+    check_fast_time(repo, rep, rid="C01-R6")
+
+
 def run(repo: Repo, rep, tier: str):
     rep.assume("the session length (stop of the time loop's range) is not negative, so inside the loop body the stride is >= 1; values of the module-level timeframe table are >= 1 (checked on its literal); E % count == 0 with E >= 1 and count >= 1 implies E >= count")
     fl = rep.guarded(flows, repo)
@@ -159,6 +167,7 @@ def run(repo: Repo, rep, tier: str):
         rep.guarded(check_escape, repo, rep, fl)
         rep.guarded(check_store_writers, repo, rep, fl)
     rep.guarded(check_forming, repo, rep)
+    rep.guarded(check_clock_before_hooks, repo, rep)
     rep.guarded(check_order_of_phases, repo, rep)
     rep.undecided_item("that everything a strategy observes is a function of the stored prefix (a two-run hyperproperty); the rules decide that the simulators never read or publish input beyond the current step")
     rep.undecided_item("user strategy code and indicator look-ahead (indicators: see C13)")
